@@ -449,3 +449,86 @@ Example C03_end_to_end_unmatched :
   | _ => False
   end.
 Proof. vm_compute. split; reflexivity. Qed.
+
+(* ======================================================================== *)
+(* HISTORIES given as PATHS (Model/Compose.v [ce_hop] / [ce_run_ops]; Proofs/EvalHistory.v): a step is
+   set_value(path, value, mustexist) / set_value on a missing straight path / delete_nodes(path), and every
+   Set / Delete step gathers its coordinates with the evaluator model on the document the previous step LEFT.
+
+   (1) REFINEMENT, no guard: a completed run is the run of History.run_ops (the subject of
+       C03_history_partial) over the plain history [ce_trace ops d], whose coordinates are the evaluator's own
+       answers, step by step.
+   (2) Hence, under C03's guard hist_ok evaluated on that trace (wf_attr / wf_docb where an operation starts;
+       acts_ok for every change; every coordinate of a delete locates a node), the run refines the plain-data
+       run: C03_history_partial.
+   (3) Under the per-step guards of C03_set_end_to_end, evaluated on the document of that moment
+       (ce_hist_guard, computable: C01's fragment and strict reading, slices last, no virtual result, ce_doc_ok;
+       for a step without mustexist: opt_ok and the path selects something), the coordinates of every Set /
+       Delete step are the locations of exactly the nodes sem_doc selects THERE, in order (ce_hist_sem).
+   What remains a guard and is not derived: that ce_doc_ok / wf_attr / wf_docb survive a step (they are
+   evaluated at every step, as in C03_history_partial), and del_all_located for Delete steps (C04's hypothesis). *)
+From YP Require Import EvalHistory.
+
+Theorem C03_history_end_to_end :
+  forall lit re_search nstr vstr kw_handler creator fl ops d k d',
+    ce_run_ops lit re_search nstr vstr kw_handler creator fl ops d k = ChDone d' ->
+    exists hops,
+      ce_trace lit re_search nstr vstr kw_handler creator fl ops d = Some hops /\
+      List.length hops = List.length ops /\
+      run_ops lit fl hops d k = HDone d' /\
+      (hist_ok lit fl hops d = true -> psteps (abs_ops lit fl hops d) (erase d) (erase d')) /\
+      (ce_hist_guard lit re_search nstr vstr kw_handler creator fl ops d = true ->
+       ce_hist_sem lit re_search nstr vstr kw_handler creator fl ops d).
+Proof. exact history_e2e. Qed.
+Print Assumptions C03_history_end_to_end.
+
+(* one step: what [ce_hist_sem] says at each position *)
+Theorem C03_history_step_end_to_end :
+  forall lit re_search nstr vstr kw_handler creator fl op d d',
+    ce_step_guard lit re_search nstr vstr kw_handler creator op d = true ->
+    ce_run_op lit re_search nstr vstr kw_handler creator fl op d = CsDone d' ->
+    ce_step_sem lit re_search nstr vstr kw_handler creator op d.
+Proof. exact step_sem. Qed.
+Print Assumptions C03_history_step_end_to_end.
+
+(* a failing history: the completed prefix is a run of History.run_ops over its trace (C03_history_failed_prefix
+   applies to it); the failing step is the model of the failing call on the document then *)
+Theorem C03_history_failed_end_to_end :
+  forall lit re_search nstr vstr kw_handler creator fl ops d k d' e n,
+    ce_run_ops lit re_search nstr vstr kw_handler creator fl ops d k = ChFailed d' e n ->
+    exists done op rest d0 hops,
+      ops = (done ++ op :: rest)%list /\ n = (k + List.length done)%nat /\
+      ce_trace lit re_search nstr vstr kw_handler creator fl done d = Some hops /\
+      run_ops lit fl hops d k = HDone d0 /\
+      ce_run_op lit re_search nstr vstr kw_handler creator fl op d0 = CsFailed d' e.
+Proof. exact run_ops_trace_failed. Qed.
+Print Assumptions C03_history_failed_end_to_end.
+
+(* non-vacuity on {k: &a x, l: [*a, 1, 1], m: {k: y, z: *a}}:
+   set l[1] := new (mustexist) / delete **[.=x] (the anchored node at its three places) /
+   create m.q[1] := 7 / set /m/k := 5 without mustexist.  Both guards hold along the run; the trace carries
+   the coordinates the evaluator gathered on the document of each moment; 8 plain-data steps. *)
+Definition e3_pp (t : string) : ppath := match prepare 20 t with Ok p => p | _ => PFail (YPE Generic) end.
+Definition hist_e3 : list ce_hop :=
+  [ CeSet true (e3_pp "l[1]") (PStr "new") FBare None;
+    CeDelete (e3_pp "**[.=x]");
+    CeCreate [SKey "m" (Some 6%N); SKey "q" None; SIdx 1] (PInt 7) FInt None;
+    CeSet false (e3_pp "/m/k") (PInt 5) FInt None ].
+Example C03_history_end_to_end_nonvacuous :
+  ce_hist_guard no_lit e3_re e3_nstr e3_vstr e3_kw e3_cr no_fl hist_e3 doc_e3 = true /\
+  match ce_run_ops no_lit e3_re e3_nstr e3_vstr e3_kw e3_cr no_fl hist_e3 doc_e3 0,
+        ce_trace no_lit e3_re e3_nstr e3_vstr e3_kw e3_cr no_fl hist_e3 doc_e3 with
+  | ChDone d', Some hops =>
+      hist_ok no_lit no_fl hops doc_e3 = true /\
+      hops = [ HSet [CNode (mkpc (Some 4%N) (PInt 1)) false] (PStr "new") FBare None;
+               HDelete [CNode (mkpc (Some 0%N) (PStr "k")) false; CNode (mkpc (Some 4%N) (PInt 0)) false;
+                        CNode (mkpc (Some 7%N) (PStr "z")) false];
+               HCreate [SKey "m" (Some 6%N); SKey "q" None; SIdx 1] (PInt 7) FInt None;
+               HSet [CNode (mkpc (Some 7%N) (PStr "k")) false] (PInt 5) FInt None ] /\
+      erase d' = DMap [ (PStr "l", DSeq [DLeaf (PStr "new"); DLeaf (PInt 1)]);
+                        (PStr "m", DMap [ (PStr "k", DLeaf (PInt 5));
+                                          (PStr "q", DSeq [DLeaf (PInt 7); DLeaf (PInt 7)]) ]) ] /\
+      List.length (abs_ops no_lit no_fl hops doc_e3) = 8%nat
+  | _, _ => False
+  end.
+Proof. vm_compute. repeat split. Qed.
